@@ -419,3 +419,5 @@ def run(ctx):
                        "(own scalar, Python number, NumPy scalar / 0-d array of another dtype, DOK); constructors from coords/dict/pairs; "
                        "non-canonical compressed input (rows unsorted, elements split at repeated indices) through GCXS(triple) and scipy; "
                        "non-trivial = non-empty array; distinct by content hash")
+    import extra_ops  # operation tables closing the measured coverage gaps (tools/coverage_audit.py; coverage/API_COVERAGE.md)
+    extra_ops.run(ctx, PID)
